@@ -78,6 +78,51 @@ class ArenaInterp(termflow.Interp):
         return super().read(st, lv)
 
 
+def split_mixed_finger_stores(I, res):
+    """a finger store whose value is a merge of differently classified values (`let p = if same_chunk { saved } else { footer };
+    finger.set(p)`) is replaced by one store per alternative, each under the facts of its predecessor edge: the obligations of
+    each class then apply to its own alternative"""
+    from . import termflow
+    out = []
+    changed = False
+    for e in res.events:
+        if e.kind == 'store' and footer_field(e) and footer_field(e)[1] == 'ptr' and e.val is not None and e.val[0] == 'phi':
+            try:
+                cls = classify_finger_store(I, res, e)
+            except Exception:
+                cls = ''
+            if cls.startswith('MIXED'):
+                pf = I.phi_facts.get(e.val[1][:2], {})
+                for p, x in e.val[2]:
+                    st2 = e.state.copy()
+                    st2.facts |= set(pf.get(p, ()))
+                    c = termflow.Event(e.kind, e.fn, e.stack, e.block, e.span, st2, lv=e.lv, val=x, callee=e.callee, args=e.args, extra=dict(e.extra, split_of=p))
+                    c.ret = e.ret
+                    c.own = e.own
+                    out.append(c)
+                changed = True
+                continue
+        out.append(e)
+    if changed:
+        res.events = out
+    return res
+
+
+_orig_run_entry = ArenaInterp.run_entry
+
+
+def _run_entry_split(self, *a, **k):
+    res = _orig_run_entry(self, *a, **k)
+    try:
+        split_mixed_finger_stores(self, res)
+    except RecursionError:
+        pass
+    return res
+
+
+ArenaInterp.run_entry = _run_entry_split
+
+
 def analyse(ctx, config='rel-all', only=None):
     """run TermFlow on every arena entry point of this configuration; cached on ctx"""
     cache = ctx.__dict__.setdefault('_arena', {})
@@ -344,3 +389,28 @@ def run_fn(ctx, body_id, config='rel-all'):
     I = ArenaInterp(ctx.db(config))
     r = I.run_entry(body_id)
     return I, r
+
+
+def exclusive_owner(db, body, _depth=0):
+    """the one function all call sites of the private function `body` sit in (directly or through other private functions
+    exclusive to it): `body` is code extracted from that function.  None if it has several independent callers, is public,
+    implements a trait, or is not called at all."""
+    m = body.get('meta') or {}
+    if body['kind'] not in ('fn', 'assoc_fn') or m.get('pub') or m.get('impl_trait') or _depth > 4:
+        return None
+    callers = {cb['id'] for cb, bi, t in db.callers_of(m.get('path') or body['id'])} | {cb['id'] for cb, bi, t in db.callers_of(body['id'])}
+    callers.discard(body['id'])
+    owners = set()
+    for c in callers:
+        cb = db.bodies.get(c)
+        if cb is None:
+            return None
+        if cb['kind'] == 'closure':
+            pf = (cb.get('meta') or {}).get('parent_fn')
+            cb2 = db.by_path.get(pf) if pf else None
+            if cb2 is None:
+                return None
+            cb = cb2
+        up = exclusive_owner(db, cb, _depth + 1)
+        owners.add(up if up is not None else cb['id'])
+    return owners.pop() if len(owners) == 1 else None
